@@ -16,6 +16,13 @@ environment the explorer owns (a ChoiceRNG) and all answer sequences with
 tracked state is compared with the face syndrome of (error + correction so
 far) computed by the reference algebra.  A second pass runs the decoder with
 its own untouched numpy generator on every input that reaches a tie-break.
+A decoder-parameter axis (max_rounds of RotatedSweepDecoder3D, max_sweep_factor
+of SweepDecoder3D set so small that runs finish in exactly the last allowed
+round, or give up) is explored on the smallest lattices.  At the end of every
+run the RETURNED vector must be the correction accumulated through the observed
+sweep_move calls (the library returns it also when it gives up), Z-only, and
+must clear the face syndrome of the error whenever the automaton stopped with
+no excitations.
 """
 import itertools
 import traceback
@@ -45,19 +52,24 @@ LEVEL_NOTE = ('Trusted: mc/gf2.py; the code object\'s stabilizer_matrix, coordin
               'stabilizer_type labels (validated by C01/C02); the lenient ChoiceRNG (it answers '
               'choice(options, size=1) with a one-element object that int() accepts, i.e. numpy<2 behaviour, so '
               'that the automaton can be explored behind D9; the pass with the decoder\'s own generator reports '
-              'D9 itself). Not covered: errors above the weight bound, lattices above the size bounds, tie-break '
+              'D9 itself). Not covered: decoder limits other than the default and the small values listed in the bounds; errors above the weight bound, lattices above the size bounds, tie-break '
               'sequences with more than two non-zero answers where the answer tree has more than 3**6 leaves '
               '(none at the current bounds), the automaton on RotatedToric3DCode (its flip_edge geometry is '
               'finding D8a, which the geometry part reports edge by edge).')
 RULE = ('geometry: every (lattice, edge) pair, distinct by construction, non-trivial when the reference face '
         'syndrome of Z_edge is non-zero; automaton: every (lattice, Z error of weight <= w, tie-break answer '
         'sequence) execution, distinct by construction (each answer sequence is generated once from its unique '
-        'parent), non-trivial when the run flipped at least one edge (measured as a set of (error, answers))')
+        'parent), non-trivial when the run flipped at least one edge (measured as a set of (error, answers)); '
+        'the same over decoder parameters (max_rounds / max_sweep_factor in {1, 2[, 3]}) on the smallest '
+        'lattices, where the evidence counts the runs that finish cleanly in exactly the last allowed round')
 ASSUMPTIONS = [
     'face stabilizers are the rows whose coordinate has stabilizer_type "face"; qubit/stabilizer index tables '
     'of the code object are faithful (C02)',
     'the only environment input of a sweep decode is decoder._rng.choice; decode is otherwise deterministic '
     '(checked: each execution is replayed from scratch with a prescribed answer list)',
+    'decode() returns the correction it accumulated also when it gives up with excitations left (both decoders '
+    'end in `return self.code.to_bsf(correction)` on the reference tree); a returned vector that differs from '
+    'the correction observed at the last sweep_move call is reported with the attribute excitations_left',
     'lenient tie-break environment: int() of a size-1 draw is allowed in the exploration pass (numpy<2 '
     'semantics); the native pass uses the real numpy generator',
 ]
@@ -83,10 +95,42 @@ _T_AUTO = [
     ['Toric3DCode', [4, 4, 4], 2, 64], ['Planar3DCode', [4, 4, 4], 2, 256],
     ['RotatedPlanar3DCode', [4, 4, 4], 2, 64],
 ]
+# decoder-parameter axis: [class, size, max error weight, decoder kwargs, number of shards]; the default
+# parameters are what the lists above run with
+_Q_PARAM = [
+    ['RotatedPlanar3DCode', [2, 2, 2], 2, {'max_rounds': 1}, 1],
+    ['RotatedPlanar3DCode', [2, 2, 2], 2, {'max_rounds': 2}, 1],
+    ['RotatedPlanar3DCode', [3, 3, 3], 2, {'max_rounds': 1}, 2],
+    ['RotatedPlanar3DCode', [3, 3, 3], 2, {'max_rounds': 2}, 3],
+    ['Toric3DCode', [2, 2, 2], 2, {'max_sweep_factor': 1}, 1],
+    ['Planar3DCode', [2, 2, 2], 2, {'max_sweep_factor': 1}, 1],
+    ['Toric3DCode', [3, 3, 3], 2, {'max_sweep_factor': 1}, 3],
+    ['Planar3DCode', [3, 3, 3], 2, {'max_sweep_factor': 1}, 2],
+]
+_T_PARAM = _Q_PARAM + [
+    ['RotatedPlanar3DCode', [2, 2, 2], 3, {'max_rounds': 1}, 1],
+    ['RotatedPlanar3DCode', [2, 2, 2], 3, {'max_rounds': 2}, 2],
+    ['RotatedPlanar3DCode', [2, 2, 2], 3, {'max_rounds': 3}, 3],
+    ['RotatedPlanar3DCode', [3, 3, 3], 2, {'max_rounds': 3}, 4],
+    ['RotatedPlanar3DCode', [3, 3, 3], 3, {'max_rounds': 1}, 16],
+    ['RotatedPlanar3DCode', [3, 3, 3], 3, {'max_rounds': 2}, 32],
+    ['RotatedPlanar3DCode', [4, 3, 2], 2, {'max_rounds': 1}, 4],
+    ['RotatedPlanar3DCode', [4, 3, 2], 2, {'max_rounds': 2}, 8],
+    ['Toric3DCode', [2, 2, 2], 3, {'max_sweep_factor': 1}, 2],
+    ['Toric3DCode', [2, 2, 2], 3, {'max_sweep_factor': 2}, 4],
+    ['Planar3DCode', [2, 2, 2], 3, {'max_sweep_factor': 1}, 1],
+    ['Planar3DCode', [2, 2, 2], 3, {'max_sweep_factor': 2}, 1],
+    ['Toric3DCode', [3, 3, 3], 2, {'max_sweep_factor': 2}, 4],
+    ['Planar3DCode', [3, 3, 3], 2, {'max_sweep_factor': 2}, 4],
+    ['Toric3DCode', [2, 3, 4], 2, {'max_sweep_factor': 1}, 4],
+    ['Planar3DCode', [2, 3, 4], 2, {'max_sweep_factor': 1}, 2],
+]
 BOUNDS = {
     'quick': {'geometry_max_n': 200, 'geometry_l_max': 6, 'automaton': [a[:3] for a in _Q_AUTO],
+              'automaton_decoder_parameters': [a[:4] for a in _Q_PARAM],
               'tie_break_deviations': 2, 'complete_tree_leaves': 729},
     'thorough': {'geometry_max_n': 800, 'geometry_l_max': 8, 'automaton': [a[:3] for a in _T_AUTO],
+                 'automaton_decoder_parameters': [a[:4] for a in _T_PARAM],
                  'tie_break_deviations': 2, 'complete_tree_leaves': 729},
 }
 BUDGET_S = {'quick': 600, 'thorough': 5400}
@@ -110,6 +154,10 @@ def cases(tier, seed):
     for cls, size, w, k in (_Q_AUTO if tier == 'quick' else _T_AUTO):
         for i in range(k):
             auto.append({'part': 'automaton', 'cls': cls, 'size': size, 'max_w': w, 'shard': [i, k]})
+    for cls, size, w, params, k in (_Q_PARAM if tier == 'quick' else _T_PARAM):
+        for i in range(k):
+            auto.append({'part': 'automaton', 'cls': cls, 'size': size, 'max_w': w, 'shard': [i, k],
+                         'params': params})
     cross = []
     pairs = [('Planar3DCode', 'Toric3DCode'), ('RotatedPlanar3DCode', 'RotatedToric3DCode')]
     for a, bcls in pairs:
@@ -119,20 +167,22 @@ def cases(tier, seed):
                 continue
             cross.append({'part': 'cross', 'seq': [[a, size], [bcls, size]]})
             cross.append({'part': 'cross', 'seq': [[bcls, size], [a, size]]})
-    n_small = sum(1 for a in auto if a['size'] == [2, 2, 2])
+    small = [a for a in auto if a['size'] == [2, 2, 2]]
+    large = [a for a in auto if a['size'] != [2, 2, 2]]
     head = len(GEOMETRY_CLASSES)
-    return geo[:head] + auto[:n_small] + geo[head:] + auto[n_small:] + cross
+    return geo[:head] + small + geo[head:] + large + cross
 
 
 # ---------------------------------------------------------------- shared reference
-def _build(cls, size):
+def _build(cls, size, params=None):
     import panqec.decoders as D
     from panqec.error_models import PauliErrorModel
     code = F.get_class(cls)(*size)
     dec_cls = getattr(D, DECODER_OF[cls])
+    params = dict(params or {})
 
     def make():
-        return dec_cls(code, PauliErrorModel(1 / 3, 1 / 3, 1 / 3), 0.1)
+        return dec_cls(code, PauliErrorModel(1 / 3, 1 / 3, 1 / 3), 0.1, **params)
     return code, make
 
 
@@ -311,6 +361,9 @@ class _Run:
         self.kinds = set()
         self.states = set()
         self.last_signs = None
+        self.rounds = 0             # rounds of sweep directions begun (rotated decoder)
+        self._first_dir = self._prev_dir = None
+        self.accumulated = 0        # Z support (qubit bits) of the correction dict as last observed
         self.terminated = False     # decode returned with no tracked excitation left
         self._orig_move = decoder.sweep_move
         self._orig_flip = decoder.flip_edge
@@ -365,12 +418,28 @@ class _Run:
         self.states.add((s, tuple(sorted(cq))))
         return s
 
+    def _remember(self, correction):
+        acc = 0
+        for loc in correction:
+            t = tuple(int(v) for v in loc)
+            if t in self.ref.qidx:
+                acc ^= 1 << self.ref.qidx[t]
+        self.accumulated = acc
+
     def _move(self, signs, correction, *a, **k):
         if self.steps == 0:
             self._check_state(signs, correction, 'initial')
+        if a:                       # coverage only: count the rounds of sweep directions
+            direction = tuple(int(v) for v in a[0])
+            if self._first_dir is None:
+                self._first_dir = direction
+            if direction == self._first_dir and direction != self._prev_dir:
+                self.rounds += 1
+            self._prev_dir = direction
         out = self._orig_move(signs, correction, *a, **k)
         self.steps += 1
         self.last_signs = self._check_state(out, correction, 'after-step')
+        self._remember(correction)
         return out
 
     def go(self):
@@ -389,6 +458,14 @@ class _Run:
             self._problem('x-block', {'x_support': _bits(cint & ((1 << n) - 1))[:8]})
         final = self.last_signs if self.steps else self.syn_e
         self.terminated = (final == 0)
+        # decode() hands back the correction it accumulated -- also when it gives up with excitations
+        # left (both decoders end in `return self.code.to_bsf(correction)`); nothing may be dropped or
+        # added between the last observed sweep step and the return
+        if (cint >> n) != self.accumulated:
+            self._problem('returned-not-accumulated', {
+                'excitations_left': bool(final != 0),
+                'returned_z_support': _bits(cint >> n)[:12],
+                'accumulated_z_support': _bits(self.accumulated)[:12]})
         if final == 0:
             err = 0
             for q in self.qubits:
@@ -404,7 +481,8 @@ class _Run:
 def _automaton(case):
     cls, size, max_w = case['cls'], case['size'], case['max_w']
     sh_i, sh_k = case['shard']
-    code, make = _build(cls, size)
+    params = case.get('params') or {}
+    code, make = _build(cls, size, params)
     ref = _Ref(code)
     n = ref.n
     dec_name = DECODER_OF[cls]
@@ -413,6 +491,7 @@ def _automaton(case):
            'extra': {'automaton_inputs': 0, 'automaton_executions': 0, 'native_executions': 0,
                      'tie_break_points': 0, 'trees_complete': 0, 'trees_bounded_2dev': 0,
                      'runs_terminated_clean': 0, 'runs_gave_up': 0,
+                     'runs_with_small_limits': 0, 'runs_clean_in_last_allowed_round': 0,
                      'edge_flips': 0, 'automaton_violations': 0, 'raises': 0}}
     X = res['extra']
     states = set()
@@ -423,13 +502,16 @@ def _automaton(case):
 
     def emit(kind, qubits, script, step, detail, **kw):
         X['automaton_violations'] += 1
-        per_kind[kind] = per_kind.get(kind, 0) + 1
-        if per_kind[kind] > 1:             # the first (simplest) input of each kind per work item
+        slot = (kind, kw.get('excitations_left'))
+        per_kind[slot] = per_kind.get(slot, 0) + 1
+        if per_kind[slot] > 1:             # the first (simplest) input of each kind per work item
             return
         key = {'kind': kind, 'site': 'sweep_move' if kind in (
             'tracking', 'even-flip-present', 'odd-flip-absent', 'non-Z-correction', 'signs-not-binary')
             else 'decode', 'decoder': dec_name, 'code': cls, 'size': list(size), 'weight': len(qubits),
             'qubits': list(qubits), 'tie_breaks': script, 'step': step}
+        if params:
+            key['params'] = dict(params)
         key.update(kw)
         detail = dict(detail)
         detail['error_edges'] = [list(map(int, code.qubit_coordinates[q])) for q in qubits]
@@ -454,7 +536,10 @@ def _automaton(case):
                  exc=type(exc).__name__, site=_where(exc) or 'decode',
                  rng='numpy-default' if script is None else 'scripted')
         for kind, step, detail in run.problems:
-            emit(kind, qubits, label, step, detail)
+            if kind == 'returned-not-accumulated':      # scoping attribute: did the automaton give up?
+                emit(kind, qubits, label, step, detail, excitations_left=detail['excitations_left'])
+            else:
+                emit(kind, qubits, label, step, detail)
         return run, exc
 
     idx = -1
@@ -491,8 +576,14 @@ def _automaton(case):
                             X['runs_terminated_clean'] += 1
                         else:
                             X['runs_gave_up'] += 1
-                    outcomes.add('%s|w%d|p%d|%s|%s' % (
-                        cls[:4], w, len(pts), 'exc' if exc is not None else
+                    if params:
+                        X['runs_with_small_limits'] += 1
+                        last = (run.rounds == params['max_rounds']) if 'max_rounds' in params else \
+                            (run.steps == params['max_sweep_factor'] * max(size))
+                        if exc is None and run.terminated and last:
+                            X['runs_clean_in_last_allowed_round'] += 1
+                    outcomes.add('%s%s|w%d|p%d|%s|%s' % (
+                        cls[:4], ''.join('/%s' % v for v in params.values()), w, len(pts), 'exc' if exc is not None else
                         ('clean' if run.terminated else 'gave-up'),
                         ','.join(sorted(run.kinds)) or 'ok'))
                     for j in range(len(script), len(pts)):
@@ -513,6 +604,7 @@ def _automaton(case):
                 X['native_executions'] += 1
             if len(res['samples']) < 2 and root_points:
                 res['samples'].append({'part': 'automaton', 'code': cls, 'size': list(size),
+                                       'decoder_parameters': dict(params),
                                        'error_qubits': list(qubits), 'tie_break_points_on_default_path':
                                        root_points, 'answer_sequences_explored': leaves,
                                        'tree_complete': complete})
